@@ -14,6 +14,9 @@ definition is not emitted, so every proof depending on it breaks):
                 time() (becomes the explicit parameter `now`),
                 int.from_bytes(event.id_bytes,"big").bit_length(),
                 len([t for t in xs if <cond>]), bool(e), a.intersection(b)
+Plugins: tools/pyfrag.d/*.py each define generate(repo, outdir) and use the core below
+(`from pyfrag import *`): expr/block/compare/listcomp, find_func, target, emit, HEADER, Ctx,
+Unsupported, RECORDS, COQ_FIELD, coq_str.
   statements  : docstring, if/elif/else, raise E(...) (class kept, message
                 dropped), return [expr], assignment to a fresh name, and
                 `for x in xs: <if ...: raise/return>` loops over typed lists.
@@ -309,211 +312,29 @@ def target(out, label, fn):
 HEADER = "(* Generated by tools/pyfrag.py from %s - do not edit. *)\nFrom NR Require Import Lib.Base Lib.PyRt.\nOpen Scope Z_scope.\n\n"
 
 
-def gen_validators(repo, outdir):
-    src = os.path.join(repo, "nostr_relay/validators.py")
-    tree = ast.parse(open(src).read())
-    out = [HEADER % "nostr_relay/validators.py"]
-    for name in ["is_not_too_large", "is_recent", "is_certain_kind", "is_author_whitelisted",
-                 "is_author_blacklisted", "is_pow", "is_not_hellthread", "is_service_event"]:
-        target(out, "validators." + name, lambda name=name: translate_validator(tree, name))
-    emit(os.path.join(outdir, "Validators.v"), "\n".join(out))
-
-
-def gen_kinds(outdir):
-    """aionostr.event kind classes (pinned third-party code under /venv)."""
-    import glob
-    cands = glob.glob("/venv/lib/python3*/site-packages/aionostr/event.py")
-    out = [HEADER % "aionostr/event.py"]
-    if not cands:
-        FAILS.append("kinds: aionostr/event.py not found")
-        print("TRANSLATE-FAIL kinds: aionostr/event.py not found")
-    else:
-        tree = ast.parse(open(cands[0]).read())
-        for prop in ["is_ephemeral", "is_replaceable", "is_paramaterized_replaceable"]:
-            def tr(prop=prop):
-                fn = find_func(tree, prop, "Event")
-                c = Ctx({"self": ("self_", "event")})
-                RECORDS["event"]  # self.kind
-                body = block(fn.body, c, "false", "bool")
-                return "Definition k_%s (self_ : vevent) : bool :=\n  %s.\n" % (prop, body)
-            target(out, "kinds." + prop, tr)
-
-        def consts():
-            vals = {}
-            for n in tree.body:
-                if isinstance(n, ast.ClassDef) and n.name == "EventKind":
-                    for s in n.body:
-                        if isinstance(s, ast.Assign) and isinstance(s.value, ast.Constant):
-                            vals[s.targets[0].id] = s.value.value
-            need = ["SET_METADATA", "CONTACTS", "DELETE"]
-            for k in need:
-                if k not in vals:
-                    raise Unsupported("EventKind.%s missing" % k)
-            return "".join("Definition kind_%s : Z := %d.\n" % (k, vals[k]) for k in need)
-        target(out, "kinds.EventKind", consts)
-    emit(os.path.join(outdir, "Kinds.v"), "\n".join(out))
-
-
-def gen_web(repo, outdir):
-    src = os.path.join(repo, "nostr_relay/web.py")
-    tree = ast.parse(open(src).read())
-    out = [HEADER % "nostr_relay/web.py"]
-
-    def tr():
-        fn = find_func(tree, "validate_message")
-        if [a.arg for a in fn.args.args] != ["message"]:
-            raise Unsupported("signature")
-        # message : jv ; isinstance(message, list) ; len(message) ; message[0] in (...)
-        stmts = [s for s in fn.body]
-        pieces = []
-        for s in stmts:
-            if isinstance(s, ast.Return) and isinstance(s.value, ast.Constant) and s.value.value is True:
-                pieces.append("true")
-                break
-            if not (isinstance(s, ast.If) and len(s.body) == 1 and isinstance(s.body[0], ast.Return)
-                    and isinstance(s.body[0].value, ast.Constant) and s.body[0].value.value is False and not s.orelse):
-                raise Unsupported("validate_message statement shape")
-            t = ast.unparse(s.test)
-            if t == "not isinstance(message, list)":
-                pieces.append("negb (jv_is_list message)")
-            elif isinstance(s.test, ast.Compare) and ast.unparse(s.test.left) == "len(message)" and len(s.test.ops) == 1 \
-                    and isinstance(s.test.ops[0], ast.Lt) and isinstance(s.test.comparators[0], ast.Constant):
-                pieces.append("(jv_len message <? %d)" % s.test.comparators[0].value)
-            elif isinstance(s.test, ast.Compare) and ast.unparse(s.test.left) == "message[0]" and isinstance(s.test.ops[0], ast.NotIn) \
-                    and isinstance(s.test.comparators[0], ast.Tuple) and all(isinstance(e, ast.Constant) and isinstance(e.value, str) for e in s.test.comparators[0].elts):
-                cmds = "; ".join(coq_str(e.value) for e in s.test.comparators[0].elts)
-                pieces.append("negb (jv_str_in (jv_nth 0 message) [%s])" % cmds)
-            else:
-                raise Unsupported("validate_message test %s" % t)
-        if not pieces or pieces[-1] != "true":
-            raise Unsupported("validate_message must end with return True")
-        body = "true"
-        for p in reversed(pieces[:-1]):
-            body = "(if %s then false else %s)" % (p, body)
-        return "Definition validate_message (message : jv) : bool :=\n  %s.\n" % body
-    target(out, "web.validate_message", tr)
-    emit(os.path.join(outdir, "Web.v"), "\n".join(out))
-
-
-def const_of(tree, path):
-    """Find a literal: path like ('Class','func') handled by callers."""
-    raise Unsupported("unused")
-
-
-def gen_auth(repo, outdir):
-    src = os.path.join(repo, "nostr_relay/auth.py")
-    tree = ast.parse(open(src).read())
-    out = [HEADER % "nostr_relay/auth.py"]
-
-    def consts():
-        fn = find_func(tree, "check_auth_event", "Authenticator")
-        kind = older = newer = None
-        relay_tag = chal_tag = None
-        for n in ast.walk(fn):
-            if isinstance(n, ast.Compare) and len(n.ops) == 1 and isinstance(n.comparators[0], (ast.Constant, ast.UnaryOp)):
-                l = ast.unparse(n.left)
-                try:
-                    v = ast.literal_eval(n.comparators[0])
-                except Exception:
-                    continue
-                if l == "auth_event.kind" and isinstance(n.ops[0], ast.NotEq):
-                    kind = v
-                elif l == "since" and isinstance(n.ops[0], ast.GtE):
-                    older = v
-                elif l == "since" and isinstance(n.ops[0], ast.LtE):
-                    newer = v
-                elif l == "tag[0]" and isinstance(n.ops[0], ast.Eq) and v == "relay":
-                    relay_tag = v
-                elif l == "tag[0]" and isinstance(n.ops[0], ast.Eq) and v == "challenge":
-                    chal_tag = v
-        if None in (kind, older, newer, relay_tag, chal_tag):
-            raise Unsupported("check_auth_event constants not in the expected shape (kind != K, since >= A, since <= B, tag[0] == 'relay'/'challenge')")
-        since_src = None
-        for s in fn.body:
-            if isinstance(s, ast.Assign) and ast.unparse(s.targets[0]) == "since":
-                since_src = ast.unparse(s.value)
-        if since_src != "time() - auth_event.created_at":
-            raise Unsupported("since = %s" % since_src)
-        return ("Definition auth_kind : Z := %d.\nDefinition auth_too_old : Z := %d.\nDefinition auth_too_new : Z := %d.\n" % (kind, older, newer))
-    target(out, "auth.check_auth_event.constants", consts)
-
-    def challenge():
-        fn = find_func(tree, "get_challenge", "Authenticator")
-        rets = [s for s in fn.body if isinstance(s, ast.Return)]
-        if len(rets) != 1 or not ast.unparse(rets[0].value).startswith("secrets.token_hex("):
-            raise Unsupported("get_challenge must return secrets.token_hex(n)")
-        n = ast.literal_eval(rets[0].value.args[0])
-        return "Definition challenge_bytes : Z := %d.\n" % n
-    target(out, "auth.get_challenge", challenge)
-
-    def can_do():
-        fn = find_func(tree, "can_do", "Authenticator")
-        src = ast.unparse(fn)
-        want = [
-            "can_do = True",
-            "if self.is_enabled:",
-            "if action in self.actions:",
-            "auth_token = auth_token or {}",
-            "can_do = bool(self.actions[action].intersection(auth_token.get('roles', self.default_roles)))",
-            "if can_do and target:",
-            "can_do = await self.evaluate_target(auth_token, action, target)",
-            "return can_do",
-        ]
-        lines = [l.strip() for l in src.splitlines() if l.strip() and not l.strip().startswith(('"""', "'''"))]
-        body = [l for l in lines[1:]]
-        # drop the docstring lines
-        code = []
-        indoc = False
-        for s in fn.body:
-            if isinstance(s, ast.Expr) and isinstance(s.value, ast.Constant):
-                continue
-            code.extend(l.strip() for l in ast.unparse(s).splitlines())
-        if code != want:
-            raise Unsupported("can_do body differs from the recognised shape: %r" % code)
-        return ("(* can_do: enabled -> (action known -> nonempty (actions[action] & roles-or-default) [and evaluate_target]) *)\n"
-                "Definition can_do_core (is_enabled : bool) (action_known : bool) (action_roles token_roles : roleset) (target_ok : bool) : bool :=\n"
-                "  if is_enabled then (if action_known then (negb (is_nil (role_inter action_roles token_roles))) && target_ok else true) else true.\n")
-    target(out, "auth.can_do", can_do)
-    emit(os.path.join(outdir, "Auth.v"), "\n".join(out))
-
-
-def gen_rate(repo, outdir):
-    src = os.path.join(repo, "nostr_relay/rate_limiter.py")
-    tree = ast.parse(open(src).read())
-    out = [HEADER % "nostr_relay/rate_limiter.py"]
-
-    def table():
-        fn = find_func(tree, "parse_option", "RateLimiter")
-        rows = []
-        for n in ast.walk(fn):
-            if isinstance(n, ast.If) and isinstance(n.test, ast.Compare) and ast.unparse(n.test.left) == "interval" \
-                    and isinstance(n.test.ops[0], ast.In) and isinstance(n.test.comparators[0], ast.Tuple):
-                names = [e.value for e in n.test.comparators[0].elts]
-                a = n.body[0]
-                if not (isinstance(a, ast.Assign) and ast.unparse(a.targets[0]) == "interval" and isinstance(a.value, ast.Constant)):
-                    raise Unsupported("interval table row")
-                rows.append((names, a.value.value))
-        if not rows:
-            raise Unsupported("no interval table")
-        body = "; ".join("([%s], %d)" % ("; ".join(coq_str(x) for x in names), v) for names, v in rows)
-        return "Definition interval_table : list (list pystr * Z) := [%s].\n" % body
-    target(out, "rate_limiter.parse_option", table)
-    emit(os.path.join(outdir, "Rate.v"), "\n".join(out))
-
-
 def main():
+    import glob
+    import importlib.util
     ap = argparse.ArgumentParser()
     ap.add_argument("--repo", default="/repo")
     ap.add_argument("--out", required=True)
     a = ap.parse_args()
     os.makedirs(a.out, exist_ok=True)
-    for g in (gen_validators, gen_web, gen_auth, gen_rate):
+    here = os.path.dirname(os.path.abspath(__file__))
+    sys.modules.setdefault("pyfrag", sys.modules[__name__])
+    for plug in sorted(glob.glob(os.path.join(here, "pyfrag.d", "*.py"))):
+        name = "pyfrag_plugin_" + os.path.basename(plug)[:-3]
         try:
-            g(a.repo, a.out)
-        except (SyntaxError, OSError) as e:
-            print("TRANSLATE-FAIL %s: %s" % (g.__name__, e))
-            FAILS.append(g.__name__)
-    gen_kinds(a.out)
+            spec = importlib.util.spec_from_file_location(name, plug)
+            mod = importlib.util.module_from_spec(spec)
+            spec.loader.exec_module(mod)
+            mod.generate(a.repo, a.out)
+        except Unsupported as e:
+            print("TRANSLATE-FAIL %s: %s" % (os.path.basename(plug), e))
+            FAILS.append(plug)
+        except Exception as e:  # fail closed: a crashing plugin is a broken translation
+            print("TRANSLATE-FAIL %s: %s: %s" % (os.path.basename(plug), type(e).__name__, e))
+            FAILS.append(plug)
     sys.exit(1 if FAILS else 0)
 
 
